@@ -13,22 +13,120 @@ RULE = ('decks whose universes contain LAT=2 cells bounded by six or eight plane
         'transformations. Stream monitor (Lean spec: a1 across the first-listed plane, a2 across the third, a3 across '
         'the seventh, computed from side mid-points) + model (Layer-B). Non-trivial = hexagonal lattice with more '
         'than one element.')
-NOT_PROVED = ['hexBase_char for arbitrary admissible hexagons (the data-dependent vertex traversal of hexVertices) — '
-              'claimed by the monitor only; irregular hexagons are not generated yet']
+NOT_PROVED = ['the geometric adjacency test areHexSidesAdjacent / hexSortSides (which side planes meet in an edge) and the '
+              'projection of the vertices on the base plane: hextrav stream (constructed regular and irregular hexagons, '
+              'function level) and the deck monitor only',
+              'the axial vector a3 (projection of a vertex on the two end planes): monitor only']
 ASSUMPTIONS = ['right prisms (top/bottom planes normal to the axis)']
 
 
 def plan(tier):
     q = tier == 'quick'
-    return [('monitor', 200 if q else 3000, {}), ('model', 40 if q else 600, {})]
+    return [('monitor', 200 if q else 3000, {}), ('model', 40 if q else 600, {}), ('hextrav', 300 if q else 6000, {})]
 
 
 def search_plan(tier, disagreements):
     return [('monitor', 1000 if tier == 'quick' else 6000, {'npts': 300})]
 
 
+def zonogon(rng):
+    """a centrally symmetric convex hexagon (regular or not) in a random axis-aligned or tilted plane:
+    returns vertices P0..P5 going round (side k = P_k P_{k+1}, opposite side k+3) and the prism axis"""
+    import math
+    if rng.random() < 0.4:
+        angs = [0.0, math.pi / 3, 2 * math.pi / 3]
+        lens = [1.0, 1.0, 1.0]
+    else:
+        a0 = rng.uniform(0, 0.5)
+        angs = [a0, a0 + rng.uniform(0.6, 1.2), a0 + rng.uniform(1.6, 2.4)]
+        lens = [rng.choice([1.0, 1.5, 2.0]) for _ in range(3)]
+    sc = rng.choice([1.0, 2.0, 0.5])
+    g2 = [(sc * l * math.cos(a), sc * l * math.sin(a)) for a, l in zip(angs, lens)]
+    # orthonormal frame (u, v, w): hexagon in the (u, v) plane, axis w
+    fr = rng.choice(['xy', 'yz', 'zx', 'tilt'])
+    if fr == 'xy':
+        u, v, w = (1., 0., 0.), (0., 1., 0.), (0., 0., 1.)
+    elif fr == 'yz':
+        u, v, w = (0., 1., 0.), (0., 0., 1.), (1., 0., 0.)
+    elif fr == 'zx':
+        u, v, w = (0., 0., 1.), (1., 0., 0.), (0., 1., 0.)
+    else:
+        u, v, w = (0.6, 0.8, 0.), (-0.8, 0.6, 0.), (0., 0., 1.)
+        if rng.random() < 0.5:
+            u, v, w = (0.6, 0., 0.8), (0., 1., 0.), (-0.8, 0., 0.6)
+    c = [rng.choice([0.0, 0.5, -1.0]) for _ in range(3)]
+    g = [tuple(a * u[i] + b * v[i] for i in range(3)) for a, b in g2]
+    p = [c[i] - 0.5 * (g[0][i] + g[1][i] + g[2][i]) for i in range(3)]
+    verts = [tuple(p)]
+    for d in (g[0], g[1], g[2], tuple(-x for x in g[0]), tuple(-x for x in g[1])):
+        p = [p[i] + d[i] for i in range(3)]
+        verts.append(tuple(p))
+    if rng.random() < 0.5:                 # go round the other way
+        verts = [verts[0]] + verts[:0:-1]
+    return verts, w, c
+
+
+def hextrav_case(seed, rng, ctx):
+    """hexVertices / hexLatticeBaseVectors on a constructed hexagon vs the Lean traversal model and the
+    translation vectors of the construction"""
+    from t4_geom_convert.Kernel.Volume.Lattice import hexVertices, hexLatticeBaseVectors
+    from t4_geom_convert.Kernel.VectUtils import isPointOnPlane
+    verts, w, c = zonogon(rng)
+    opp = lambda s_: s_ + 1 if s_ % 2 == 0 else s_ - 1   # noqa
+    x = rng.choice([2, 3, 4, 5])
+    y = rng.choice([s_ for s_ in (2, 3, 4, 5) if s_ not in (x, opp(x))])
+    arr = [0, x, y, 1, opp(x), opp(y)]
+    rot = rng.randrange(6)
+    arr = arr[rot:] + arr[:rot]            # label of the side P_k P_{k+1}
+    planes = [None] * 6
+    mids = [None] * 6
+    for k in range(6):
+        a, b = verts[k], verts[(k + 1) % 6]
+        mid = tuple((a[i] + b[i]) / 2 for i in range(3))
+        e = tuple(b[i] - a[i] for i in range(3))
+        n = (e[1] * w[2] - e[2] * w[1], e[2] * w[0] - e[0] * w[2], e[0] * w[1] - e[1] * w[0])
+        if sum(n[i] * (mid[i] - c[i]) for i in range(3)) < 0:
+            n = tuple(-t for t in n)       # outward
+        ln = sum(t * t for t in n) ** 0.5
+        n = tuple(t / ln for t in n)
+        planes[arr[k]] = ((a, n), -1)
+        mids[arr[k]] = mid
+    key = h((tuple(verts), tuple(arr)))
+    fails = []
+    rp = {'verts': verts, 'arr': arr, 'axis': w}
+    for first in (0, 2):
+        try:
+            vs, axis = hexVertices(planes, first)
+            code = []
+            for v in vs:
+                on = [i for i in range(6) if isPointOnPlane(v, planes[i][0])]
+                code.append('-'.join(map(str, on)))
+            code = ' '.join(code)
+        except Exception as e:  # noqa
+            code = 'raises ' + type(e).__name__
+        resp = ctx['drv'].ask('hextrav %d %s' % (first, ' '.join(map(str, arr))))
+        model = resp[3:] if resp.startswith('ok ') else resp
+        if model != code:
+            fails.append(fail('disagreement', 'hexVertices(first=%d) on arrangement %r: code %r / model %r' % (first, arr, code, model),
+                              {'stream': 'hextrav'}, rp))
+    try:
+        base = hexLatticeBaseVectors(planes)
+        for lab, bv in ((0, base[0]), (2, base[1])):
+            exp = tuple(mids[lab][i] - mids[opp(lab)][i] for i in range(3))
+            if any(abs(exp[i] - bv[i]) > 1e-9 for i in range(3)):
+                fails.append(fail('violation', 'base vector across listed plane %d is %r, the translation carrying the unit '
+                                  'cell across that plane is %r (arrangement %r)' % (lab + 1, tuple(bv), exp, arr),
+                                  {'stream': 'hextrav', 'class': 'base-vector'}, rp))
+    except Exception as e:  # noqa
+        fails.append(fail('violation', 'hexLatticeBaseVectors raises %s on an admissible hexagon' % type(e).__name__,
+                          {'stream': 'hextrav', 'class': 'exception'}, rp))
+    return dict(hashes=[key], nontrivial_hashes=[key], dist={'hextrav:rot-%d' % rot: 1}, sample={'arr': arr}, failures=fails[:3])
+
+
 def run_case(stream, seed, ctx, params):
     rng = random.Random(seed)
+    if stream == 'hextrav':
+        return hextrav_case(seed, rng, ctx)
     kind = rng.choice(['hex', 'hex', 'hex3'])
     d = U.build_universe_deck(rng, depth=rng.randint(1, 2), macro_p=0.0, tr_p=0.0, fill_tr_p=0.4, trcl_p=0.2,
                               reuse_p=0.3, lattice_p=0.7, lat_kind=kind, lat_tr_p=0.25, lat_trcl_p=0.2)
@@ -39,4 +137,8 @@ def run_case(stream, seed, ctx, params):
     return r
 
 
-replay = replay_deck
+def replay(payload, ctx):
+    p = payload.get('payload') or {}
+    if 'arr' in p:
+        return {'model': [ctx['drv'].ask('hextrav %d %s' % (f, ' '.join(map(str, p['arr'])))) for f in (0, 2)], 'input': p}
+    return replay_deck(payload, ctx)
